@@ -19,9 +19,9 @@ package main
 // location, restricted to the years around the instants of the case and around
 // today, so the model never needs the tz database.
 //
-// `today` is the civil date of time.Now() in time.Local, as days since
-// 1970-01-01; both subcommands force time.Local = time.UTC. Only
-// Time.ToTimeTZ reads it. run-time marks cases whose `today` is stale with
+// `today` is the civil date of time.Now() in the zone of the case (what
+// Time.ToTimeTZ reads: time.Now().In(tz)), as days since 1970-01-01; both
+// subcommands force time.Local = time.UTC. Only Time.ToTimeTZ reads it. run-time marks cases whose `today` is stale with
 // {"skip":...} (the comparison script ignores them), so generate and run on the
 // same day.
 
@@ -71,10 +71,19 @@ func (z *zoneSpec) location() (*time.Location, error) {
 	case "fixed":
 		return time.FixedZone(z.Name, z.Off), nil
 	case "named":
-		return time.LoadLocation(z.Name)
+		if loc, ok := locCache[z.Name]; ok {
+			return loc, nil
+		}
+		loc, err := time.LoadLocation(z.Name)
+		if err == nil {
+			locCache[z.Name] = loc
+		}
+		return loc, err
 	}
 	return nil, fmt.Errorf("bad zone kind %q", z.Kind)
 }
+
+var locCache = map[string]*time.Location{}
 
 func offAt(loc *time.Location, t int64) int {
 	_, off := time.Unix(t, 0).In(loc).Zone()
@@ -176,7 +185,7 @@ var namedZoneNames = []string{
 
 type tgen struct {
 	r     *rand.Rand
-	today int64
+	now   time.Time // one reading of the clock for the whole generation
 	named []*namedZone
 }
 
@@ -525,6 +534,21 @@ func (g *tgen) zone() (*zoneSpec, *namedZone) {
 	}
 }
 
+// todayIn is the civil date of now in loc, as days since 1970-01-01.
+func todayIn(now time.Time, loc *time.Location) int64 { return todayOf(now.In(loc)) }
+
+// caseToday is the `today` of a case with the given zone.
+func (g *tgen) caseToday(spec *zoneSpec, z *namedZone) int64 {
+	if z != nil {
+		return todayIn(g.now, z.loc)
+	}
+	loc, err := spec.location()
+	if err != nil {
+		return todayOf(g.now.UTC())
+	}
+	return todayIn(g.now, loc)
+}
+
 func todayOf(now time.Time) int64 {
 	y, m, d := now.Date()
 	return time.Date(y, m, d, 0, 0, 0, 0, time.UTC).Unix() / 86400
@@ -536,7 +560,7 @@ func (g *tgen) finishZone(spec *zoneSpec, z *namedZone, srcs ...string) *zoneSpe
 	if z == nil {
 		return spec
 	}
-	years := []int{time.Unix(g.today*86400, 0).UTC().Year()}
+	years := []int{g.now.In(z.loc).Year(), g.now.UTC().Year()}
 	ctx := types.ContextWithTZ(context.Background(), z.loc)
 	for _, s := range srcs {
 		if v, ok := types.ParseTime(ctx, s, -1); ok {
@@ -621,7 +645,7 @@ func genTimeMain(args []string) int {
 	_ = fs.Parse(args)
 	time.Local = time.UTC
 
-	g := &tgen{r: rand.New(rand.NewSource(*seed)), today: todayOf(time.Now())}
+	g := &tgen{r: rand.New(rand.NewSource(*seed)), now: time.Now()}
 	for _, name := range namedZoneNames {
 		loc, err := time.LoadLocation(name)
 		if err != nil {
@@ -657,7 +681,7 @@ func genTimeMain(args []string) int {
 			c["src"] = s
 			c["precision"] = g.precision(12)
 			c["zone"] = g.finishZone(spec, z, s)
-			c["today"] = g.today
+			c["today"] = g.caseToday(spec, z)
 		case p < 60:
 			spec, z := g.zone()
 			s, _ := g.src(z, 75)
@@ -672,7 +696,7 @@ func genTimeMain(args []string) int {
 			}
 			c["usetz"] = g.chance(75)
 			c["zone"] = g.finishZone(spec, z, s)
-			c["today"] = g.today
+			c["today"] = g.caseToday(spec, z)
 		case p < 82:
 			spec, z := g.zone()
 			a, _ := g.src(z, 88)
@@ -686,7 +710,7 @@ func genTimeMain(args []string) int {
 			c["b"] = b
 			c["usetz"] = g.chance(80)
 			c["zone"] = g.finishZone(spec, z, a, b)
-			c["today"] = g.today
+			c["today"] = g.caseToday(spec, z)
 		case p < 94:
 			c["op"] = "time.unmarshal"
 			kind := kinds[g.r.Intn(len(kinds))]
@@ -704,7 +728,7 @@ func genTimeMain(args []string) int {
 			c["src"] = s
 			c["precision"] = g.precision(9)
 			c["zone"] = g.finishZone(spec, z, s)
-			c["today"] = g.today
+			c["today"] = g.caseToday(spec, z)
 		}
 		w.Write(marshal(c))
 		w.WriteByte('\n')
@@ -833,7 +857,7 @@ func classifyTimeErr(err error) string {
 	return "other: " + msg
 }
 
-func runTimeCase(c *timeCase, today int64) (out J) {
+func runTimeCase(c *timeCase, now time.Time) (out J) {
 	out = J{"id": c.ID}
 	defer func() {
 		if r := recover(); r != nil {
@@ -847,6 +871,7 @@ func runTimeCase(c *timeCase, today int64) (out J) {
 	}()
 
 	ctx := context.Background()
+	today := todayOf(now.UTC())
 	if c.Zone != nil {
 		loc, err := c.Zone.location()
 		if err != nil {
@@ -854,6 +879,7 @@ func runTimeCase(c *timeCase, today int64) (out J) {
 			return out
 		}
 		ctx = types.ContextWithTZ(ctx, loc)
+		today = todayIn(now, loc)
 	}
 	if c.Today != nil && *c.Today != today && c.Op != "time.unmarshal" {
 		out["skip"] = "stale today"
@@ -988,7 +1014,6 @@ func runTimeMain(args []string) int {
 	w := bufio.NewWriterSize(fout, 1<<20)
 	defer w.Flush()
 
-	today := todayOf(time.Now())
 	sc := bufio.NewScanner(fin)
 	sc.Buffer(make([]byte, 1<<20), 1<<26)
 	stale := 0
@@ -1003,16 +1028,18 @@ func runTimeMain(args []string) int {
 			w.WriteByte('\n')
 			continue
 		}
-		res := runTimeCase(&c, today)
+		res := runTimeCase(&c, time.Now())
+		// the clock may have passed midnight of the case's zone while the case ran
+		if c.Today != nil && c.Zone != nil && c.Op != "time.unmarshal" {
+			if loc, err := c.Zone.location(); err == nil && todayIn(time.Now(), loc) != *c.Today {
+				res = J{"id": c.ID, "skip": "stale today"}
+			}
+		}
 		if _, ok := res["skip"]; ok {
 			stale++
 		}
 		w.Write(marshal(res))
 		w.WriteByte('\n')
-	}
-	if todayOf(time.Now()) != today {
-		fmt.Fprintln(os.Stderr, "run-time: the date changed during the run; rerun")
-		return 3
 	}
 	if stale > 0 {
 		fmt.Fprintf(os.Stderr, "run-time: %d cases skipped (stale today or unknown zone)\n", stale)
